@@ -262,6 +262,9 @@ func (x *ctx) ghostRead(st *state, name string, callee *ssa.Function, args []val
 	}
 	r := term{t, hi.elem}
 	x.assumeFieldInv(st, x.ghostKey(name), r)
+	if hi.elem == sRef {
+		x.noteAllocated(st, r)
+	}
 	return scalar(r)
 }
 
@@ -1000,7 +1003,20 @@ func (x *ctx) havocAll(st *state, typ string) {
 			if x.w.immutable[k] {
 				continue
 			}
+			hi := x.hinfo[k]
+			old, had := st.heap[k]
+			if !had {
+				old = x.initialName(k)
+			}
 			x.havocKey(st, k)
+			// objects allocated by the function under verification and never handed out keep their fields
+			if typ == "*" && !strings.HasPrefix(k, "G:") && !hi.indexed && k != "Len" && len(x.allocated) > 0 {
+				if cur, ok := st.heap[k]; ok && x.seen[old] {
+					for _, a := range x.allocated {
+						st.define(fmt.Sprintf("(= (select %s %s) (select %s %s))", cur, a.s, old, a.s))
+					}
+				}
+			}
 		}
 	}
 }
@@ -1116,10 +1132,16 @@ func (x *ctx) loopEntry(st *state, fr *frame, b *ssa.BasicBlock, prev *ssa.Basic
 	back := b.Dominates(prev)
 	ord := loopOrdinal(b)
 	var ls *LoopSpec
+	lcon := fr.con
 	if fr.con != nil {
 		ls = fr.con.Loops[ord]
+	} else if x.spec == 0 && x.con != nil && fr.fn.Parent() != nil {
+		// a loop inside a closure of the function under verification: `loop <closure>:<n>: ...`
+		if cl := x.con.ClosureLoops[fr.fn.Name()+":"+fmt.Sprint(ord)]; cl != nil {
+			ls, lcon = cl, x.con
+		}
 	}
-	if x.spec > 0 || fr.con == nil || (ls != nil && ls.Unroll > 0) || (ls == nil && !fr.top) {
+	if x.spec > 0 || lcon == nil || (ls != nil && ls.Unroll > 0) || (ls == nil && !fr.top) {
 		// unrolling: specification functions and loops declared `unroll N`
 		limit := 80
 		if ls != nil && ls.Unroll > 0 {
@@ -1168,7 +1190,7 @@ func (x *ctx) loopEntry(st *state, fr *frame, b *ssa.BasicBlock, prev *ssa.Basic
 	evalInv := func(s *state, cl *Clause, fresh bool) string {
 		pc := x.pre.clone()
 		np := len(pc.pc)
-		l1 := x.clauseL1(pc, fr.con, cl, penv)
+		l1 := x.clauseL1(pc, lcon, cl, penv)
 		for id, v := range pc.cells {
 			if _, ok := s.cells[id]; !ok {
 				s.cells[id] = v
@@ -1326,10 +1348,24 @@ func (x *ctx) addLeafKeys(key string, t types.Type, ms *modSet) {
 func (x *ctx) instrMods(fr *frame, in ssa.Instruction, ms *modSet, depth int) {
 	switch v := in.(type) {
 	case *ssa.Store:
+		if fa, ok := v.Addr.(*ssa.FieldAddr); ok {
+			if al, ok := fa.X.(*ssa.Alloc); ok && al.Heap {
+				return // a field of an object created in this very iteration: existing objects are untouched
+			}
+		}
 		x.addrKey(fr, v.Addr, ms)
+	case *ssa.Next:
+		ms.keys["G:visited"] = true
 	case *ssa.MapUpdate:
-		ms.keys["MapP"] = true
-		ms.keys["MapV:"+mapValKey(x, v.Map.Type())] = true
+		if mt, ok := v.Map.Type().Underlying().(*types.Map); ok {
+			if ks, ok := x.leafSort(mt.Key()); ok {
+				ms.keys[x.ghostKey(x.mapP(ks))] = true
+				if vs, ok := x.leafSort(mt.Elem()); ok {
+					ms.keys[x.ghostKey(x.mapV(ks, vs))] = true
+				}
+			}
+		}
+		ms.keys["G:mapN"] = true
 	case *ssa.MakeSlice, *ssa.Slice:
 		ms.keys["Len"] = true
 	case *ssa.Send:
@@ -1414,7 +1450,12 @@ func (x *ctx) callMods(fr *frame, c *ssa.CallCommon, ms *modSet, depth int) {
 			}
 		}
 		if v.Name() == "delete" {
-			ms.keys["MapP"] = true
+			if mt, ok := c.Args[0].Type().Underlying().(*types.Map); ok {
+				if ks, ok := x.leafSort(mt.Key()); ok {
+					ms.keys[x.ghostKey(x.mapP(ks))] = true
+				}
+			}
+			ms.keys["G:mapN"] = true
 		}
 		return
 	case *ssa.Parameter:
@@ -1470,3 +1511,49 @@ func mapValKey(x *ctx, t types.Type) string {
 }
 
 var _ = token.ADD
+
+// siteAssertions checks the `site NAME: requires` clauses of the verified function at a call of NAME.
+func (x *ctx) siteAssertions(st *state, fr *frame, b *ssa.BasicBlock, in *ssa.Call) {
+	c := in.Common()
+	name := ""
+	switch {
+	case c.IsInvoke():
+		name = c.Method.Name()
+	case c.StaticCallee() != nil:
+		name = c.StaticCallee().Name()
+	default:
+		name = sourceName(c.Value)
+	}
+	if j := strings.Index(name, "["); j > 0 {
+		name = name[:j] // instantiated generic: Set[K V]
+	}
+	cls := fr.con.Sites[name]
+	if len(cls) == 0 {
+		return
+	}
+	penv := func(n string, t types.Type) (val, bool) { v, ok := x.params[n]; return v, ok }
+	lenv := func(n string, t types.Type) (val, bool) {
+		if v, ok := x.localByName(st, fr, b, n); ok {
+			return v, true
+		}
+		return penv(n, t)
+	}
+	for _, cl := range cls {
+		pc := x.pre.clone()
+		np := len(pc.pc)
+		l1 := x.clauseL1(pc, fr.con, cl, penv)
+		for id, v := range pc.cells {
+			if _, ok := st.cells[id]; !ok {
+				st.cells[id] = v
+			}
+		}
+		for _, f := range pc.pc[np:] {
+			if f.def {
+				st.define(f.t)
+			}
+		}
+		g := x.applyClosure(st, l1, cl.P3, lenv)
+		x.oblige(st, "site-requires", cl.Tag(), name, g.t.s, "")
+		st.assume(g.t.s)
+	}
+}
